@@ -48,6 +48,7 @@ impl std::fmt::Debug for RegistryCore {
 impl RegistryCore {
     fn register(&mut self, c: Box<dyn Collector>) -> Result<()> {
         let mut desc_id_set = HashSet::new();
+        let mut new_dim_hashes: Vec<(String, u64)> = Vec::new();
         let mut collector_id: u64 = 0;
 
         for desc in c.desc() {
@@ -69,8 +70,21 @@ impl RegistryCore {
                 }
             }
 
-            self.dim_hashes_by_name
-                .insert(desc.fq_name.clone(), desc.dim_hash);
+            // Only remember the dimension of a new name once the whole
+            // collector has been accepted, so that a refused registration
+            // leaves no trace.
+            match new_dim_hashes.iter().find(|(name, _)| *name == desc.fq_name) {
+                Some((_, hash)) if *hash != desc.dim_hash => {
+                    return Err(Error::Msg(format!(
+                        "descriptors with the fully-qualified name {:?} \
+                         within the same collector have different label \
+                         names or a different help string",
+                        desc.fq_name
+                    )));
+                }
+                Some(_) => {}
+                None => new_dim_hashes.push((desc.fq_name.clone(), desc.dim_hash)),
+            }
 
             // If it is not a duplicate desc in this collector, add it to
             // the collector_id.
@@ -92,6 +106,7 @@ impl RegistryCore {
         match self.collectors_by_id.entry(collector_id) {
             HEntry::Vacant(vc) => {
                 self.desc_ids.extend(desc_id_set);
+                self.dim_hashes_by_name.extend(new_dim_hashes);
                 vc.insert(c);
                 Ok(())
             }
